@@ -404,7 +404,12 @@ Definition expectation_ok (evs dels : list event) (x : sx) : bool :=
         end
       else true
   | SL [t; a; tm] =>
-      if sx_is "expect-data" t then
+      if sx_is "expect-last-data" t then
+        match sx_bytes a, rev (filter (fun e => match e with EData _ _ _ _ => true | _ => false end) evs) with
+        | Some body, EData g t' _ _ :: _ => bytes_eqb g body && term_is tm t'
+        | _, _ => false
+        end
+      else if sx_is "expect-data" t then
         match sx_bytes a, filter (fun e => match e with EData _ _ _ _ => true | _ => false end) evs with
         | Some body, EData g t' _ _ :: _ => bytes_eqb g body && term_is tm t'
         | _, _ => false
